@@ -274,6 +274,9 @@ def run(chk):
     _envvalid_rule(chk, prog)
     _envcount_rule(chk, prog)
     _framehdr_rule(chk, prog)
+    _noabort_rule(chk, prog)
+    _verifyenv_rule(chk, prog)
+    _bitsetnull_rule(chk, prog)
 
 
 def _envvalid_rule(chk, prog):
@@ -507,6 +510,151 @@ def _framehdr_rule(chk, prog):
             else:
                 chk.ok(rule, "%s at offset %s >= JANET_FRAME_SIZE" % (x.kids[0].text(), off.text()))
     chk.floor(rule, 4, n)
+
+
+NOABORT_OK = {
+    ("gc.c", "janet_gcalloc"): "allocation failure (JANET_OUT_OF_MEMORY); not input-controlled beyond size limits checked by the callers",
+    ("gc.c", "janet_sfree"): "scratch-memory invariant of the allocator itself",
+    ("gc.c", "janet_srealloc"): "scratch-memory invariant / allocation failure",
+    ("pp.c", "get_fmt_mapping"): "format letters come from a fixed in-tree table (C17-FMTTABLES checks it)",
+    ("symcache.c", "janet_symcache_findmem"): "symbol cache invariant (cache never full), independent of the loaded data",
+    ("marsh.c", "unmarshal_one_abstract"): "an in-tree unmarshal hook returned NULL: every registered hook returns the object it allocated",
+}
+
+
+def _noabort_rule(chk, prog):
+    """unmarshal and asm must answer bad input with a catchable error.  janet_assert / JANET_EXIT terminate the process
+    instead, so every such site reachable from the two entry points is either an internal invariant that the input
+    cannot influence (listed with its reason) or must be unreachable because the caller has already rejected the
+    input (checked: the caller establishes the asserted condition on every path)."""
+    from jv.callgraph import CallGraph
+    rule = "C10-NOABORT"
+    chk.rule(rule, "no process-terminating assertion reachable from asm / unmarshal depends on the loaded data")
+    full = Program.load("default")
+    cg = CallGraph(full)
+    entries = [e for e in (cg.find(nm) for nm in ("cfun_asm", "cfun_unmarshal")) if e]
+    if len(entries) != 2:
+        raise AnalysisBroken("cfun_asm / cfun_unmarshal not found")
+    fwd = set(entries)
+    work = list(entries)
+    while work:
+        x = work.pop()
+        for y in cg.edges.get(x, ()):
+            if y not in fwd and isinstance(y, tuple):
+                fwd.add(y)
+                work.append(y)
+    n = 0
+    for fid in sorted(fwd):
+        fn = cg.funcs.get(fid)
+        if fn is None:
+            continue
+        sites = {}
+        for x in fn.nodes:
+            if x.k == "call" and (x.in_macro("janet_assert") or x.in_macro("JANET_EXIT")) and x.callee in ("exit", "abort"):
+                sites.setdefault(x.ln, x)
+        for ln, x in sorted(sites.items()):
+            n += 1
+            chk.instance(rule)
+            key = (fid[0], fid[1])
+            if key in NOABORT_OK:
+                chk.exception(rule, "%s:%s" % key, NOABORT_OK[key])
+                chk.ok(rule, "%s: internal invariant" % fid[1])
+                continue
+            # precondition established by every caller that is itself reachable from the entries?
+            asserted = None
+            for y in fn.nodes:
+                if y.k == "bin" and y.op == "==" and y.in_macro("janet_assert") and y.ln == ln:
+                    asserted = y
+            callers = [(g, c) for g in fwd if g in cg.funcs for c in cg.funcs[g].calls(fid[1])]
+            good = bool(callers) and asserted is not None
+            for g, c in callers:
+                gfn = cg.funcs[g]
+                IN, T = flow.condition_facts(gfn)
+                fld = strip_casts(asserted.kids[0]).field if asserted is not None and strip_casts(asserted.kids[0]).k == "mem" else None
+                val = strip_casts(asserted.kids[1]).v if asserted is not None else None
+                for z, S in flow.states_at(gfn, IN, T):
+                    if z is c:
+                        for ps in S:
+                            if not any(op == "==" and ln_ is not None and ln_.k == "mem" and ln_.field == fld and
+                                       ((rn is None and val == 0) or (rn is not None and rn.v == val))
+                                       for (op, l, r, _, ln_, rn) in ps):
+                                good = False
+            if good:
+                chk.ok(rule, "%s: asserted condition is established by every loader-side caller (%s)" % (
+                    fid[1], ", ".join(sorted(set(g[1] for g, _ in callers)))))
+            else:
+                chk.violation(rule, fid[0], fid[1], "abort", x.loc,
+                              "%s terminates the process (janet_assert) and is reachable from asm/unmarshal without its callers "
+                              "having rejected the input first: malformed input kills the interpreter instead of raising an error" % fid[1])
+    chk.floor(rule, 5, n)
+
+
+def _verifyenv_rule(chk, prog):
+    """JOP_CLOSURE treats def->environments[i] == -1 (or an index beyond the parent's count) as "capture my own frame" and
+    anything else as an index into func->envs.  A value below -1 is therefore an out-of-bounds index; janet_verify has
+    to reject it.  janet_verify also relates arity to slotcount - in a form that cannot wrap for an arity near
+    INT32_MAX."""
+    rule = "C10-VERIFYENV"
+    chk.rule(rule, "janet_verify rejects environment indices below -1 and bounds arity against slotcount without a wrapping addition")
+    fn = prog.need_func("janet_verify", "bytecode.c")
+    chk.analysed(fn)
+    chk.instance(rule)
+    low = [x for x in fn.nodes if x.k == "bin" and x.op == "<" and strip_casts(x.kids[1]).v == -1
+           and any(y.k == "mem" and y.field == "environments" for y in x.kids[0].walk())]
+    if low:
+        chk.ok(rule, "janet_verify: environments[i] < -1 rejected")
+    else:
+        chk.violation(rule, "bytecode.c", fn.name, "environments-lower-bound", fn.loc,
+                      "janet_verify does not reject def->environments[i] < -1: JOP_CLOSURE then indexes func->envs with a negative "
+                      "number taken from the image / assembly")
+    chk.instance(rule)
+    sums = [x for x in fn.nodes if x.k == "bin" and x.op == "+" and (x.t or "") in ("int", "int32_t")
+            and any(y.k == "mem" and y.field in ("arity", "slotcount", "min_arity", "max_arity") for y in x.walk())]
+    if sums:
+        chk.violation(rule, "bytecode.c", fn.name, "arity-sum", sums[0].loc,
+                      "`%s` adds to an arity taken from untrusted input in 32 bits: for an arity near INT32_MAX the sum wraps "
+                      "negative and the slot-count test passes" % sums[0].text())
+    else:
+        chk.ok(rule, "janet_verify: arity bounded against slotcount without an addition")
+
+
+def _bitsetnull_rule(chk, prog):
+    """def->closure_bitset exists only for functions produced by the compiler in this process; defs from asm or from an
+    image without that section have NULL.  Every subscript of the bitset must be guarded by a NULL test (janet_env_detach
+    does it; a sibling that forgets crashes when such a function's closure is marshalled)."""
+    rule = "C10-BITSETNULL"
+    chk.rule(rule, "every subscript of a funcdef's closure_bitset is dominated by a NULL test")
+    full = Program.load("default", units=["marsh.c", "fiber.c", "gc.c", "vm.c", "bytecode.c", "asm.c"])
+    n = 0
+    for fn in full.all_funcs():
+        holders = set()
+        for x in fn.nodes:
+            if x.k == "vardecl" and x.kids and any(y.k == "mem" and y.field == "closure_bitset" for y in x.kids[0].walk()):
+                holders.add(x.name)
+        subs = [x for x in fn.nodes if x.k == "sub" and ((is_ref(strip_casts(x.kids[0])) and strip_casts(x.kids[0]).name in holders)
+                                                          or (strip_casts(x.kids[0]).k == "mem" and strip_casts(x.kids[0]).field == "closure_bitset"))]
+        subs = [x for x in subs if not (x.parent is not None and x.parent.k == "asg" and x.parent.kids[0] is x)]
+        if not subs:
+            continue
+        chk.analysed(fn)
+        IN, T = flow.condition_facts(fn)
+        done = set()
+        for z, S in flow.states_at(fn, IN, T):
+            for x in subs:
+                if x.id in done or not any(y is x for y in z.walk()):
+                    continue
+                done.add(x.id)
+                n += 1
+                chk.instance(rule)
+                base = strip_casts(x.kids[0]).text()
+                ok = bool(S) and all(any(op == "!=" and l == base and (rn is None or rn.v == 0) for (op, l, r, _, ln, rn) in ps) for ps in S)
+                if ok:
+                    chk.ok(rule, "%s: %s read under a NULL test" % (fn.name, base))
+                else:
+                    chk.violation(rule, fn.tu.name, fn.name, "bitset:%s" % base, x.loc,
+                                  "`%s` is subscripted without a NULL test: for a function built by asm or loaded from an image "
+                                  "without the bitset section this dereferences NULL" % base)
+    chk.floor(rule, 2, n)
 
 
 # ------------------------------------------------------------------------------------------------
